@@ -81,13 +81,13 @@ theorem At.union_kids {path ufs mode n md p fs types offs cur}
   simp only [total, Bool.and_eq_true, decide_eq_true_eq] at htot
   exact newUnionFields_at path ufs 0 bl0 fs hbl0 ht.2.1 cur hw.2.2.1 hs hsu htot.2
 
-/-- one row of a union builder: the union fails itself only for an undeclared variant; everything else is the
-variant's child -/
+/-- one row of a union builder: the union fails itself only for an undeclared variant (the row counter has head room:
+`hcap`, repo fix fe68100); everything else is the variant's child -/
 theorem union_row_bl {pc : B → R B} {p fs types offs cur} {i : Nat} {S : List String} {path : String} {ufs : UFields}
     {mode : UnionMode} {n : Bool} {md : Metadata}
     (hg : GoodH (.union p fs types offs cur) (.union ufs mode) n md)
     (ha : At path (.union ufs mode) n md (.union p fs types offs cur))
-    (hnone : ufs.toList[i]? = none → path ∈ S)
+    (hnone : ufs.toList[i]? = none → path ∈ S) (hcap : 1 ≤ curRoom cur)
     (hpc : ∀ tid nm cdt cn cmd c, ufs.toList[i]? = some (tid, .mk nm cdt cn cmd) → GoodH c cdt cn cmd →
       At (path ++ "." ++ childName nm) cdt cn cmd c → roomL fs ≤ room c → Bl S (pc c))
     (hnp : ∀ c msg, pc c ≠ .error (.err msg)) :
@@ -122,9 +122,13 @@ theorem union_row_bl {pc : B → R B} {p fs types offs cur} {i : Nat} {S : List 
       simp only [serializeVariant, hget] at h
       split at h
       · simp [SaModel.panic] at h
-      · split at h
-        · omega
-        · cases h
+      · rename_i co hco
+        split at h
+        · rename_i hov
+          exact curRoom_pos_get hco hcap hov
+        · split at h
+          · omega
+          · cases h
     · obtain ⟨c1, t', o', cur'⟩ := r
       obtain ⟨m1, co, hget1, _⟩ := serializeVariant_ok hr
       simp only at hget1
